@@ -104,7 +104,8 @@ ANY_MATCH = "exists(lambda k: 0 <= k and k < {j} and truthy(self.whens[k].expres
 for _meth in ("render_to_output", "render_to_output_async"):
     contract(
         f"liquid2.builtin.tags.case_tag:CaseNode.{_meth}",
-        props=["C01"],
+        # C18: which branch runs does not depend on how much text a block wrote (trimming and blank suppression change that)
+        props=["C01", "C18"],
         params={"self": Rec("CaseNode", _module="liquid2.builtin.tags.case_tag", whens=ListOf("any"), default=Opt(NODE)), "context": CTX0, "buffer": Any_},
         obj_fields=WHEN_FIELDS,
         opaque_methods=OPAQUE,
